@@ -381,8 +381,17 @@ pub fn check_stream(bytes: &[u8], expect: Option<&Expect>, rng: &mut Rng) -> Out
 /// check_stream in a forked child with memory and CPU limits: what dies there (abort, stack
 /// overflow, runaway allocation, endless loop) is a C05 outcome, not the end of the harness.
 /// Only used to find the culprit after the in-process run was killed.
+/// deaths seen by check_stream_isolated in this process: after a handful the isolated mode has
+/// named its culprits and the remaining cases are skipped (each death costs the CPU limit)
+static DEATHS: std::sync::atomic::AtomicUsize = std::sync::atomic::AtomicUsize::new(0);
+
 pub fn check_stream_isolated(bytes: &[u8], seed: u64) -> Outcome {
-    let r = isolated(6 << 30, 20, || {
+    if DEATHS.load(std::sync::atomic::Ordering::SeqCst) >= 6 {
+        let mut o = Outcome::default();
+        o.lib = "skipped".into();
+        return o;
+    }
+    let r = isolated(6 << 30, 10, || {
         let mut rng = Rng::new(seed);
         let o = check_stream(bytes, None, &mut rng);
         outcome_json("x", "x", bytes, &o, false).to_string().into_bytes()
@@ -401,6 +410,7 @@ pub fn check_stream_isolated(bytes: &[u8], seed: u64) -> Outcome {
             o
         }
         Err(how) => {
+            DEATHS.fetch_add(1, std::sync::atomic::Ordering::SeqCst);
             let mut o = Outcome::default();
             o.lib = "died".into();
             o.viol.push(Viol { prop: "C05", sig: "process-died".into(), why: format!("the call did not return: the process running it was {}", how) });
@@ -531,6 +541,9 @@ pub fn driver_streams(rng: &mut Rng, n: usize, maxlen: usize, mutants_per: usize
         prev = stream.clone();
         v.push(Driven { label: format!("{}/{}", pname, cname), bytes: stream });
     }
+    for (label, s) in gen::window_edge_streams(rng) {
+        v.push(Driven { label, bytes: s });
+    }
     v
 }
 
@@ -608,7 +621,7 @@ pub fn record(args: &Args) -> i32 {
         let mut r = Rng::new(seed.wrapping_mul(7919) + i as u64);
         let o = if isolate { check_stream_isolated(&streams[i].bytes, seed.wrapping_mul(7919) + i as u64) } else { check_stream(&streams[i].bytes, None, &mut r) };
         wd.leave(w);
-        if o.lib == "died" { died.lock().unwrap().insert(i); }
+        if o.lib == "died" || o.lib == "skipped" { died.lock().unwrap().insert(i); }
         let j = outcome_json(&id, &streams[i].label, &streams[i].bytes, &o, !o.viol.is_empty());
         let mut g = out.lock().unwrap();
         writeln!(g, "{}", j).unwrap();
@@ -673,10 +686,30 @@ pub fn exhaustive_short(args: &Args) -> i32 {
     let total: u64 = (0..=maxlen).map(|l| 256u64.pow(l as u32)).sum();
     // split by the first byte (and length)
     let counts = Mutex::new((0u64, 0u64, 0u64)); // evaluations, ok, panics
+    // a call that does not come back: every worker publishes the string it is working on; a string
+    // that takes longer than the limit is written out as a timeout record and the run ends (status 3)
+    let current: std::sync::Arc<Vec<Mutex<Option<(Vec<u8>, std::time::Instant)>>>> = std::sync::Arc::new((0..threads.max(1)).map(|_| Mutex::new(None)).collect());
+    {
+        let current = current.clone();
+        let limit = std::time::Duration::from_secs(args.num("limit", 30));
+        let out_path = args.req("out").to_string();
+        std::thread::spawn(move || loop {
+            std::thread::sleep(std::time::Duration::from_millis(500));
+            for slot in current.iter() {
+                if let Some((b, t)) = &*slot.lock().unwrap() {
+                    if t.elapsed() > limit {
+                        let mut f = std::fs::OpenOptions::new().append(true).open(&out_path).unwrap();
+                        writeln!(f, "{}", json!({"kind":"timeout","id":format!("x{}", hex(b)),"hex":hex(b)})).unwrap();
+                        std::process::exit(3);
+                    }
+                }
+            }
+        });
+    }
     for len in 0..=maxlen {
         let n = 256u64.pow(len as u32);
         let chunks = if len == 0 { 1 } else { 256 };
-        par_for(chunks as usize, threads, |c, _| {
+        par_for(chunks as usize, threads, |c, w| {
             let per = n / chunks;
             let mut buf = vec![0u8; len];
             let (mut ev, mut okc, mut pc) = (0u64, 0u64, 0u64);
@@ -686,6 +719,7 @@ pub fn exhaustive_short(args: &Args) -> i32 {
                     buf[i] = (x & 255) as u8;
                     x >>= 8;
                 }
+                *current[w % current.len()].lock().unwrap() = Some((buf.clone(), std::time::Instant::now()));
                 for verify in [false, true] {
                     ev += 1;
                     match guarded(|| decompress_deflate_stream(&buf, verify, 0)) {
@@ -702,6 +736,7 @@ pub fn exhaustive_short(args: &Args) -> i32 {
                     }
                 }
             }
+            *current[w % current.len()].lock().unwrap() = None;
             let mut g = counts.lock().unwrap();
             g.0 += ev;
             g.1 += okc;
@@ -839,6 +874,14 @@ pub fn edge_replay(args: &Args) -> i32 {
     quiet_panics();
     let f = std::fs::File::open(args.req("in")).unwrap();
     let mut out = std::io::BufWriter::new(std::fs::File::create(args.req("out")).unwrap());
+    // a call that does not come back: the watchdog ends the run (status 3) and the driver repeats
+    // it with --isolate, every case in a child process of its own
+    let isolate = args.get("isolate").is_some();
+    let out_path = args.req("out").to_string();
+    let wd = Watchdog::start(1, std::time::Duration::from_secs(if isolate { 3600 } else { args.num("limit", 60) }), Box::new(move |id| {
+        let mut f = std::fs::OpenOptions::new().append(true).open(&out_path).unwrap();
+        writeln!(f, "{}", json!({"kind":"timeout","id":id})).unwrap();
+    }));
     for (i, line) in std::io::BufReader::new(f).lines().enumerate() {
         let line = line.unwrap();
         if line.trim().is_empty() {
@@ -847,6 +890,8 @@ pub fn edge_replay(args: &Args) -> i32 {
         let case: Value = serde_json::from_str(&line).unwrap();
         let bytes: Vec<u8> = case["bytes"].as_array().unwrap().iter().map(|x| x.as_u64().unwrap() as u8).collect();
         let accept = case["verdict"].as_str() == Some("accept");
+        out.flush().unwrap();
+        wd.enter(0, &format!("e{}", i));
         let z = gen::zlib_inflate_raw(&bytes, 1 << 20);
         let mut model_error: Option<String> = None;
         if z.ok != accept {
@@ -855,10 +900,10 @@ pub fn edge_replay(args: &Args) -> i32 {
             model_error = Some(format!("specification and zlib disagree on consumed / plaintext length ({} / {} vs {} / {})", case["consumed"], case["plain"], z.consumed, z.plain.len()));
         }
         let mut rng = Rng::new(i as u64);
-        let mut o = check_stream(&bytes, None, &mut rng);
+        let mut o = if isolate { check_stream_isolated(&bytes, i as u64) } else { check_stream(&bytes, None, &mut rng) };
         o.model_error = model_error;
         // what the real parser reports for inputs the specification accepts
-        if accept {
+        if accept && o.lib != "died" && o.lib != "skipped" {
             if let Ok(Ok(t)) = guarded(|| verif::parse(&bytes)) {
                 let want: Vec<(u8, Vec<Value>)> = case["blocks"].as_array().unwrap().iter().map(|b| (b["type"].as_u64().unwrap() as u8, b["toks"].as_array().unwrap().clone())).collect();
                 let got: Vec<(u8, Vec<Value>)> = t.blocks.iter().map(|b| (b.block_type, b.tokens.iter().map(tok_json).collect())).collect();
@@ -872,6 +917,7 @@ pub fn edge_replay(args: &Args) -> i32 {
         j["spec"] = json!({"verdict": case["verdict"], "reason": case["reason"], "lenient": case["lenient"], "whole": case["whole"]});
         j["leniency"] = json!(!accept && libok);
         writeln!(out, "{}", j).unwrap();
+        wd.leave(0);
     }
     0
 }
